@@ -19,6 +19,12 @@ CLAIMED = {
              "Tie: the real reporter sends to a loopback socket; its datagrams must equal the model's byte for byte on batches straddling the limit, and an independent decoder checks size/partition/order on the real bytes; every skipped span is re-sent alone to confirm it does not fit.",
         note="Trusted: Lean kernel; hand-written model of thrift_codec's compact encoding (compared byte-for-byte, not proved); loopback UDP delivery; send_to/serialize assumed not to fail.",
         design="§4 C20"),
+    "C19": dict(
+        technique="Lean 4 theorems (OpenTelemetry conversion invertible; Jaeger id split, varint and zigzag round trips; µs loss bound; Datadog meta keys) + byte-exact differential run of the three real reporters (loopback UDP, loopback HTTP, capturing exporter) against the Lean encoders + independent python Thrift/msgpack decoders as oracle",
+        text="Kernel-checked: C19_otel_faithful (every field of every well-formed record is recoverable from the exported SpanData), C19_jaeger_ids_lossless, C19_varint_roundtrip, C19_zigzag_roundtrip, C19_jaeger_time_loss, C19_meta_keys_subset. "
+             "Tie and remaining assurance: the Lean models of thrift_codec's compact encoding, rmp-serde's struct-map encoding and the OTel conversion must reproduce the real reporters' output byte for byte (Datadog: equal after decoding, meta is a HashMap) on every generated batch, and independent decoders check on the real bytes that each record appears exactly once, in order, with ids/name/times/properties/events unchanged up to the stated format limits.",
+        note="Partial: whole-message Thrift and msgpack decode(encode)=id theorems are not yet proved in Lean (primitives are); that half is covered by decoding the real bytes with independent decoders on every run. Trusted: Lean kernel; models of thrift_codec/rmp-serde/opentelemetry_sdk (compared, not proved); reqwest and the loopback stack; records with begin+duration >= 2^64 are excluded (no collector cycle produces them; D11).",
+        design="§4 C19"),
 }
 
 REASON_PENDING = "not claimed yet in this revision: model/harness slice for this property is still being built (see DESIGN.md §6 work order)"
